@@ -11,23 +11,25 @@ import (
 func main() {
 	debug.SetGCPercent(800) // the oracles allocate many short-lived big numbers
 
+	// Cheap groups first: if an overloaded machine hits the deadline, only the
+	// tail of the large enumerations is cut.
 	vlib.Main("C10",
-		vlib.Group{Name: "quantile", Gen: genQuantile},
-		vlib.Group{Name: "long", Gen: genLong},
-		vlib.Group{Name: "histogram", Gen: genHistogram},
-		vlib.Group{Name: "ks", Gen: genKS},
-		vlib.Group{Name: "sortmode", Gen: genSortMode},
-		vlib.Group{Name: "roc", Gen: genROC},
-		vlib.Group{Name: "moments", Gen: genMoments},
-		vlib.Group{Name: "pairs", Gen: genPairs},
-		vlib.Group{Name: "kendall", Gen: genKendall},
-		vlib.Group{Name: "dist", Gen: genDist},
-		vlib.Group{Name: "covmat", Gen: genCovMat},
-		vlib.Group{Name: "mahalanobis", Gen: genMahalanobis},
-		vlib.Group{Name: "cca", Gen: genCCA},
-		vlib.Group{Name: "spatial", Gen: genSpatial},
-		vlib.Group{Name: "mds", Gen: genMDS},
 		vlib.Group{Name: "domain", Gen: genDomain},
 		vlib.Group{Name: "dst", Gen: genDst},
+		vlib.Group{Name: "cca", Gen: genCCA},
+		vlib.Group{Name: "mahalanobis", Gen: genMahalanobis},
+		vlib.Group{Name: "spatial", Gen: genSpatial},
+		vlib.Group{Name: "mds", Gen: genMDS},
+		vlib.Group{Name: "dist", Gen: genDist},
+		vlib.Group{Name: "sortmode", Gen: genSortMode},
+		vlib.Group{Name: "ks", Gen: genKS},
+		vlib.Group{Name: "roc", Gen: genROC},
+		vlib.Group{Name: "long", Gen: genLong},
+		vlib.Group{Name: "kendall", Gen: genKendall},
+		vlib.Group{Name: "quantile", Gen: genQuantile},
+		vlib.Group{Name: "histogram", Gen: genHistogram},
+		vlib.Group{Name: "pairs", Gen: genPairs},
+		vlib.Group{Name: "moments", Gen: genMoments},
+		vlib.Group{Name: "covmat", Gen: genCovMat},
 	)
 }
